@@ -1,5 +1,5 @@
 (* Props/C03.v — signatures are trusted only under the issuer's keys from metadata *)
-From PV Require Import Lib.Base Model.Sigver Model.CertSelect Proofs.Sigver_lemmas Proofs.CertSelect_lemmas.
+From PV Require Import Lib.Base Model.Sigver Model.CertSelect Model.IssuerSel Proofs.Sigver_lemmas Proofs.CertSelect_lemmas Proofs.IssuerSel_lemmas.
 Open Scope N_scope.
 
 (* Default setting (only_use_keys_in_metadata on): a successful check means the
@@ -87,3 +87,160 @@ Example C03_witness :
   check_signature true fed (Some idpA) false [9] 9 = Err (s2l "SignatureError").
 Proof. vm_compute. repeat split; reflexivity. Qed.
 Print Assumptions C03_witness.
+
+(* ======================================================================================
+   WHICH issuer: the issuer-selection step of _check_signature and its call sites
+   (Model/IssuerSel.v).  [trusted_for m i k]: k is a certificate of a signing (or use-less)
+   key descriptor of the entity the store serves for id i. *)
+
+(* The candidate certificates are those of the signed element's OWN Issuer whenever it has
+   one: the issuer= argument (whatever a call site or a direct caller passes) is not looked at. *)
+Theorem C03_own_issuer_decides :
+  forall c arg own embedded signer i,
+    issuer_text own = Some i ->
+    elem_candidates c arg own embedded = candidate_certs (v_mp c) (v_md c) (Some i) (v_only_md c) embedded /\
+    check_elem c arg own embedded signer = check_signature (v_mp c) (v_md c) (Some i) (v_only_md c) embedded signer.
+Proof. intros. split; [now apply elem_candidates_own|now apply check_elem_own]. Qed.
+Print Assumptions C03_own_issuer_decides.
+
+(* Every call site: with an Issuer of its own the element is checked under that entity's certificates;
+   without one, only the advice loop (enclosing assertion's Issuer) and direct callers supply a name,
+   every other site looks up nobody — MissingKey under the default setting. *)
+Theorem C03_call_sites :
+  forall c s enclosing direct own embedded signer,
+    (forall i, issuer_text own = Some i ->
+       check_at c s enclosing direct own embedded signer =
+       check_signature (v_mp c) (v_md c) (Some i) (v_only_md c) embedded signer) /\
+    (issuer_text own = None ->
+       check_at c s enclosing direct own embedded signer =
+       check_signature (v_mp c) (v_md c)
+         (match s with SiteAdvice => issuer_text enclosing | SiteDirect => issuer_text direct | _ => None end)
+         (v_only_md c) embedded signer) /\
+    (issuer_text own = None -> s <> SiteAdvice -> s <> SiteDirect -> v_only_md c = true ->
+       check_at c s enclosing direct own embedded signer = Err (s2l "MissingKey")).
+Proof.
+  intros c s enclosing direct own embedded signer. split; [|split].
+  - intros i Hi. unfold check_at. now apply check_elem_own.
+  - intros Hn. unfold check_at, check_elem. rewrite (select_issuer_fallback _ _ Hn). destruct s; reflexivity.
+  - intros Hn Ha Hd Ho. unfold check_at, check_elem. rewrite (select_issuer_fallback _ _ Hn), Ho.
+    replace (issuer_text (site_arg s enclosing direct)) with (@None str) by (destruct s; try reflexivity; contradiction).
+    apply C03_rejections. right. now left.
+Qed.
+Print Assumptions C03_call_sites.
+
+(* Default setting, any call site, any argument: an accepted signature was made with a key trusted for
+   the element's own Issuer; only an element WITHOUT Issuer is judged under the fallback name. *)
+Theorem C03_accepted_under_own_issuer :
+  forall c s enclosing direct own embedded signer,
+    v_only_md c = true ->
+    check_at c s enclosing direct own embedded signer = Ok tt ->
+    exists i, trusted_for (v_md c) i signer /\
+      (issuer_text own = Some i \/
+       (issuer_text own = None /\ issuer_text (site_arg s enclosing direct) = Some i)).
+Proof.
+  intros c s enclosing direct own embedded signer Ho H. unfold check_at in H.
+  destruct (check_elem_trusted _ _ _ _ _ Ho H) as (i & Hi & T). exists i. split; [exact T|].
+  now apply select_issuer_cases.
+Qed.
+Print Assumptions C03_accepted_under_own_issuer.
+
+(* A whole response document (Response, plain assertions, assertions inside EncryptedAssertion, assertions
+   inside EncryptedAssertion of their Advice), default setting: if the SP's signature checks all pass then
+   every signed element — by induction over the assertion lists — was signed with a key trusted for ITS OWN
+   issuer: never for the Issuer of the Response around it or of a sibling.  An advice assertion without
+   Issuer is the only element judged under another element's name (the enclosing assertion's). *)
+Theorem C03_document :
+  forall c d, v_only_md (dc_v (pc_d c)) = true -> parse_doc c d = Ok tt ->
+    (forall emb k, se_sig (d_resp d) = Some (emb, k) ->
+       exists i, issuer_text (se_issuer (d_resp d)) = Some i /\ trusted_for (v_md (dc_v (pc_d c))) i k) /\
+    (forall a emb k, In a (d_plain d ++ d_enc d) -> se_sig (as_elem a) = Some (emb, k) ->
+       exists i, issuer_text (se_issuer (as_elem a)) = Some i /\ trusted_for (v_md (dc_v (pc_d c))) i k) /\
+    (forall a x emb k, In a (d_plain d ++ d_enc d) -> In x (as_advice a) -> se_sig x = Some (emb, k) ->
+       exists i, trusted_for (v_md (dc_v (pc_d c))) i k /\
+         (issuer_text (se_issuer x) = Some i \/
+          (issuer_text (se_issuer x) = None /\ issuer_text (se_issuer (as_elem a)) = Some i))).
+Proof.
+  intros c d Ho H. apply parse_doc_sound, verify_doc_ok in H as (HR & HA & HV). split; [|split].
+  - intros emb k Hs. rewrite Hs in HR.
+    destruct (check_selem_trusted _ _ _ _ _ Ho Hs HR) as (i & Hi & T). rewrite select_issuer_noarg in Hi. now exists i.
+  - intros a emb k Ha Hs. specialize (HA a Ha).
+    destruct (check_selem_trusted _ _ _ _ _ Ho Hs HA) as (i & Hi & T). rewrite select_issuer_noarg in Hi. now exists i.
+  - intros a x emb k Ha Hx Hs. assert (Ha' : In a (d_enc d ++ d_plain d)).
+    { apply in_or_app. apply in_app_or in Ha as [Ha|Ha]; [now right|now left]. }
+    specialize (HV a x Ha' Hx). destruct (check_selem_trusted _ _ _ _ _ Ho Hs HV) as (i & Hi & T).
+    exists i. split; [exact T|]. now apply select_issuer_cases.
+Qed.
+Print Assumptions C03_document.
+
+(* Setting off, any call site: the embedded certificates are consulted iff metadata yields no signing
+   certificate for the SELECTED issuer — the element's own whenever it has one. *)
+Theorem C03_embedded_fallback_selected_issuer :
+  forall c arg own embedded, v_only_md c = false ->
+    let from_md : list N := if v_mp c then match md_certs (v_md c) (select_issuer own arg) SIGNING with Some l => l | None => [] end else [] in
+    elem_candidates c arg own embedded =
+      match from_md with
+      | [] => match embedded with [] => Err (s2l "MissingKey") | _ => Ok embedded end
+      | _ => Ok from_md
+      end.
+Proof. intros c arg own embedded Ho. unfold elem_candidates. rewrite Ho. apply C03_embedded_only_as_fallback. Qed.
+Print Assumptions C03_embedded_fallback_selected_issuer.
+
+(* Histories: any sequence of operations on any set of long-lived clients, from any process state (by
+   induction over the sequence): the n-th outcome is the outcome of that operation on that client alone —
+   nothing verified earlier, for another issuer or on another client, changes the certificates used later. *)
+Theorem C03_history_independent :
+  forall cs st ops, snd (run_ops cs st ops) = map (check_op cs) ops.
+Proof. intros cs st ops. apply run_ops_results. Qed.
+Print Assumptions C03_history_independent.
+
+Theorem C03_history_accepts_only_own_issuer :
+  forall cs st ops n cl arg e emb k c,
+    nth_error ops n = Some (OpElem cl arg e) -> nth_error cs cl = Some c -> v_only_md (dc_v (pc_d c)) = true ->
+    se_sig e = Some (emb, k) ->
+    nth_error (snd (run_ops cs st ops)) n = Some (Ok tt) ->
+    exists i, select_issuer (se_issuer e) arg = Some i /\ trusted_for (v_md (dc_v (pc_d c))) i k.
+Proof.
+  intros cs st ops n cl arg e emb k c Hop Hc Ho Hs H. rewrite run_ops_results in H.
+  rewrite nth_error_map, Hop in H. cbn [option_map] in H. injection H as H.
+  unfold check_op in H. cbn [op_client] in H. rewrite Hc in H.
+  exact (check_selem_trusted _ _ _ _ _ Ho Hs H).
+Qed.
+Print Assumptions C03_history_accepts_only_own_issuer.
+
+(* … and a document accepted at any point of any history passed the entry point of ITS client on its own,
+   so C03_document applies to it with that client's metadata *)
+Theorem C03_history_documents :
+  forall cs st ops n cl d c,
+    nth_error ops n = Some (OpDoc cl d) -> nth_error cs cl = Some c ->
+    nth_error (snd (run_ops cs st ops)) n = Some (Ok tt) ->
+    parse_doc c d = Ok tt.
+Proof.
+  intros cs st ops n cl d c Hop Hc H. rewrite run_ops_results, nth_error_map, Hop in H. cbn [option_map] in H.
+  injection H as H. unfold check_op in H. cbn [op_client] in H. now rewrite Hc in H.
+Qed.
+Print Assumptions C03_history_documents.
+
+(* non-vacuity: the federation above; idpB's key is 2.  An unsigned (or B-signed) Response of B around an
+   assertion of A signed with B's key is refused at every place; an advice assertion WITHOUT Issuer falls
+   back to the enclosing assertion's; histories over two clients with different metadata for idpA. *)
+Definition own (i : str) : issuer_elem := Some (Some i).
+Definition cfgD : pcfg := {| pc_d := {| dc_v := {| v_mp := true; v_md := fed; v_only_md := true |}; dc_wrs := false |}; pc_was := false |}.
+Definition cfgD2 : pcfg := {| pc_d := {| dc_v := {| v_mp := true; v_md := [(idpA, [[ {| kd_use := Some SIGNING; kd_certs := [2] |} ]])]; v_only_md := true |}; dc_wrs := false |}; pc_was := false |}.
+Definition el (i : issuer_elem) (k : N) : selem := {| se_issuer := i; se_sig := Some ([k], k) |}.
+Definition unsigned (i : issuer_elem) : selem := {| se_issuer := i; se_sig := None |}.
+Definition docAB (resp : selem) (plain enc : list asrt) : doc := {| d_resp := resp; d_plain := plain; d_enc := enc |}.
+Example C03_issuer_witness :
+  parse_doc cfgD (docAB (unsigned (own idpB)) [] [{| as_elem := el (own idpA) 2; as_advice := [] |}]) = Err (s2l "SignatureError") /\
+  parse_doc cfgD (docAB (el (own idpB) 2) [{| as_elem := el (own idpA) 2; as_advice := [] |}] []) = Err (s2l "SignatureError") /\
+  parse_doc cfgD (docAB (el (own idpB) 2) [] [{| as_elem := el (own idpA) 1; as_advice := [] |}]) = Ok tt /\
+  parse_doc cfgD (docAB (unsigned (own idpB)) [] [{| as_elem := unsigned (own idpB); as_advice := [el (own idpA) 2] |}]) = Err (s2l "SignatureError") /\
+  parse_doc cfgD (docAB (unsigned (own idpB)) [{| as_elem := unsigned (own idpB); as_advice := [el None 2] |}] []) = Ok tt /\
+  parse_doc cfgD (docAB (unsigned (own idpB)) [] [{| as_elem := el None 2; as_advice := [] |}]) = Err (s2l "MissingKey") /\
+  check_at (dc_v (pc_d cfgD)) SiteDirect None (own idpB) (own idpA) [2] 2 = Err (s2l "SignatureError") /\
+  check_at (dc_v (pc_d cfgD)) SiteDirect None (own idpB) (Some None) [2] 2 = Ok tt /\
+  select_issuer (Some (Some (s2l "  https://idp.example.org/idp "))) (own idpB) = Some idpA /\
+  snd (run_ops [cfgD; cfgD2] [] [OpElem 0 None (el (own idpA) 1); OpElem 1 None (el (own idpA) 1); OpElem 1 None (el (own idpA) 2);
+                                 OpElem 0 None (el (own idpA) 2); OpElem 0 None (el (own idpB) 2); OpElem 0 None (el (own idpB) 1)])
+    = [Ok tt; Err (s2l "SignatureError"); Ok tt; Err (s2l "SignatureError"); Ok tt; Err (s2l "SignatureError")].
+Proof. vm_compute. repeat split; reflexivity. Qed.
+Print Assumptions C03_issuer_witness.
